@@ -16,11 +16,13 @@ import (
 	"net/url"
 	"os"
 	"runtime"
+	"sort"
 	"strconv"
 	"sync"
 	"sync/atomic"
 	"time"
 
+	"github.com/0xReLogic/Helios/internal/config"
 	"github.com/0xReLogic/Helios/internal/loadbalancer"
 	"github.com/0xReLogic/Helios/internal/ratelimiter"
 )
@@ -107,6 +109,68 @@ func rrConcurrent() {
 				c = append(c, counts[i])
 			}
 			emit(map[string]any{"kind": "rrcount", "n": n, "g": g, "total": per * g, "counts": c})
+		}
+	}
+}
+
+// affinity "regardless of concurrent traffic": many clients select in real parallel on the real
+// balancer; every client must keep the backend it gets when served alone
+func affinityConcurrent(tier string) {
+	iters := 4000
+	if tier == "thorough" {
+		iters = 60000
+	}
+	for _, strat := range []string{"ip_hash", "ip_hash_consistent"} {
+		for _, n := range []int{2, 3, 5, 8} {
+			c := &config.Config{}
+			c.Server.Port = 8080
+			for i := 1; i <= n; i++ {
+				c.Backends = append(c.Backends, config.BackendConfig{Name: fmt.Sprintf("b%d", i), Address: fmt.Sprintf("http://b%d.backend.test:80", i), Weight: 1})
+			}
+			c.LoadBalancer.Strategy = strat
+			lb, err := loadbalancer.NewLoadBalancer(c)
+			if err != nil {
+				panic(err)
+			}
+			g := 16
+			reqs := make([]*http.Request, g)
+			solo := make([]int, g)
+			for w := 0; w < g; w++ {
+				reqs[w] = httptest.NewRequest("GET", "/", nil)
+				reqs[w].RemoteAddr = fmt.Sprintf("10.%d.%d.%d:%d", w%3, w*7%251, 1+w*13%250, 30000+w)
+				if w%4 == 3 {
+					reqs[w].Header.Set("X-Forwarded-For", fmt.Sprintf("203.0.113.%d, 10.0.0.1", w))
+				}
+				fmt.Sscanf(lb.NextBackend(reqs[w]).Name, "b%d", &solo[w])
+			}
+			seen := make([][]int, g)
+			var wg sync.WaitGroup
+			start := make(chan struct{})
+			for w := 0; w < g; w++ {
+				wg.Add(1)
+				go func(w int) {
+					defer wg.Done()
+					got := map[int]bool{}
+					<-start
+					for i := 0; i < iters; i++ {
+						idx := 0
+						if b := lb.NextBackend(reqs[w]); b != nil {
+							fmt.Sscanf(b.Name, "b%d", &idx)
+						}
+						got[idx] = true
+					}
+					for k := range got {
+						seen[w] = append(seen[w], k)
+					}
+					sort.Ints(seen[w])
+				}(w)
+			}
+			close(start)
+			wg.Wait()
+			lb.Stop()
+			for w := 0; w < g; w++ {
+				emit(map[string]any{"kind": "affconc", "strategy": strat, "n": n, "client": reqs[w].RemoteAddr, "solo": solo[w], "seen": seen[w], "iters": iters})
+			}
 		}
 	}
 }
@@ -265,6 +329,8 @@ func main() {
 			addressStrings()
 		case "limconc":
 			limiterConcurrent()
+		case "affconc":
+			affinityConcurrent(tier)
 		}
 	}
 	out.Flush()
